@@ -95,6 +95,8 @@ def do_eval(ids, checks=None, stage="detection"):
             sh("git checkout -- .", cwd=wt)
             shutil.rmtree(outdir, ignore_errors=True)
         meta["caught_by" if stage == "detection" else "caught_by_final"] = sorted({k.split(":")[0] + " (" + k.split(":")[1] + ")" for k, v in res.items() if v["exit"] == 1})
+        rc_h, out_h = sh("git rev-parse --short HEAD", cwd=wt)
+        meta.setdefault("evaluated_on", {})[stage] = out_h.strip()
         meta["evaluated_how"] = "patch applied in a scratch worktree; check run with VERIF_REPO=<worktree> (same check code, same bounds)"
         json.dump(meta, open(f"{d}/meta.json", "w"), indent=1)
 
